@@ -270,7 +270,8 @@ class World:  # pylint: disable=too-many-instance-attributes
             'read_twice': bool(flags & 4),
             'callback': bool(flags & 8),
             'do_fsync': not flags & 16,
-            'api': op['b'] % 4,
+            'api': op['b'] % 5,
+            'short_step': 1 + op['a'] * 37 % 5000,
         }
         if rop['api'] == 3:  # single-object API
             rop['datas'] = rop['datas'][:1]
@@ -305,6 +306,9 @@ class World:  # pylint: disable=too-many-instance-attributes
             keys = self.c.add_streamed_objects_to_pack(openers, open_streams=True, callback=callback, **kwargs)
             for path in paths:
                 os.remove(path)
+        elif api == 4:
+            streams = [ShortReadStream(d, rop['short_step'] + i) for i, d in enumerate(datas)]
+            keys = self.c.add_streamed_objects_to_pack(streams, callback=callback, **kwargs)
         else:
             keys = [
                 self.c.add_streamed_object_to_pack(
